@@ -47,6 +47,9 @@ def gen_cases(ctx, n_hist, n_tree, n_consumer, tree_ops=(6, 7), big=False,
             # a second dispatcher for the SAME instance object (same filter object) follows its own
             # history, interleaved with this one: the two must not influence each other
             c["sibling"] = True
+        elif rng.random() < 0.08:
+            # a rule solver with a user rule that fails midway is let loose on the dispatcher
+            c["failing_solver"] = True
         yield c
     for i in range(2 if n_hist < 50000 else 28):
         # a job of more than 256 operations
@@ -171,6 +174,47 @@ def run_history(ctx, case, hooks: Hooks, instance=None):
             hooks.reset(run)
             continue
         hooks.before(run)
+        if explicit is None and case.get("failing_solver") and rng.random() < 0.12 \
+                and raiser is None and not run.done():
+            # a rule solver is handed the caller's dispatcher; the user's rule fails after a few
+            # steps, the caller catches the error and carries on by hand (the reference follows
+            # what the solver dispatched meanwhile)
+            from job_shop_lib.dispatching import DispatcherObserver
+            from job_shop_lib.dispatching.rules import DispatchingRuleSolver
+
+            class Follow(DispatcherObserver):
+                _is_singleton = False
+
+                def __init__(self, dispatcher):
+                    super().__init__(dispatcher)
+                    self.seen = []
+
+                def update(self, scheduled_operation):
+                    self.seen.append(scheduled_operation)
+
+                def reset(self):
+                    pass
+            left = [rng.randint(0, 3)]
+
+            def failing_rule(dispatcher):
+                if left[0] <= 0:
+                    raise RuntimeError("user rule failed")
+                left[0] -= 1
+                return rng.choice(dispatcher.available_operations())
+            follow = Follow(run.d)
+            try:
+                DispatchingRuleSolver(failing_rule, "random", ready_operations_filter=None).solve(
+                    run.instance, run.d)
+            except RuntimeError:
+                ctx.count("solver_runs_aborted_by_a_failing_user_rule")
+            run.d.unsubscribe(follow)
+            for so in follow.seen:
+                run.r.apply(so.operation.operation_id, so.machine_id)
+            if follow.seen:
+                so = follow.seen[-1]
+                hooks.after(run, so.operation.operation_id, so.machine_id)
+            if run.done():
+                continue
         if explicit is None and rng.random() < 0.08:
             # a request the dispatcher has to refuse (ineligible in-range machine, operation that
             # is not its job's next one); if it is accepted the schedule is no longer feasible and
